@@ -710,6 +710,27 @@ impl Pool {
             shard.validate()?;
         }
 
+        // The shard number is the position of the shard: numbers must be exactly 0..n-1.
+        let mut shard_numbers = self
+            .shards
+            .keys()
+            .map(|shard_idx| shard_idx.parse::<usize>().unwrap())
+            .collect::<Vec<usize>>();
+        shard_numbers.sort();
+
+        if shard_numbers
+            .iter()
+            .enumerate()
+            .any(|(expected, shard_number)| expected != *shard_number)
+        {
+            error!(
+                "Shards must be numbered 0 through {} without gaps, got: {:?}",
+                self.shards.len().saturating_sub(1),
+                self.shards.keys().collect::<Vec<&String>>()
+            );
+            return Err(Error::BadConfig);
+        }
+
         for (option, name) in [
             (&self.shard_id_regex, "shard_id_regex"),
             (&self.sharding_key_regex, "sharding_key_regex"),
